@@ -69,8 +69,8 @@ def compare(R, name, p, res, want, guarded=False, replay=None, env=None):
         except TL.NotInFragment as e:
             R.undecided(name, str(e))
             return None
-        got = prune_zero(c, TL.observable(ev.tr))
-        want = prune_zero(c, want)
+        got = prune_zero(c, c13.drop_pure(TL.observable(ev.tr), ev.pure))
+        want = prune_zero(c, c13.drop_pure(want, ev.pure))
         why = []
         ok = pysem.guarded_eq(c, got, want, why) if guarded else pysem.trace_eq(c, got, want, why)
         R.check(name, ok, "; ".join(why)[:500] + "\nlowered:\n" + TL.show(got) + "\nPython:\n" + TL.show(want), replay=replay)
